@@ -1,17 +1,25 @@
 """C26 — static file serving never leaves its root directory.
 
-A case is {"cfg": k, "raw": request.path (ASCII)}; cfg k selects (cwd, root,
-route prefix, default_filename) from CFGS.  The real stack is driven end to end
+A case is {"app": a, "hc": static_hash_cache, "ops": [...]}; app a selects (cwd, [handler (root,
+route prefix, default_filename), ...]) from APPS (the first 19 are the single-handler configurations
+CFGS; the others have several StaticFileHandlers with sibling / nested roots which share the
+class-wide StaticFileHandler._static_hashes cache).  ops are run in order against ONE Application
+after StaticFileHandler.reset():  ["G", raw] / ["H", raw] = GET / HEAD with request.path raw (ASCII),
+["U", k, path] = StaticFileHandler.make_static_url(settings of handler k, path).
+The real stack is driven end to end
 without sockets: HTTPServer.handle_stream(FakeIOStream) -> HTTP/1 parser ->
 Application routing (regex prefix + "(.*)") -> percent/UTF-8 decoding ->
 StaticFileHandler.get over a fixture tree created under .scratch/c26fx (no
 symlinks; sibling directories share the root's name prefix; every file's
 content is "F:" + its own location, so a response body identifies which file
-was served).  Observable: [status, Location, body, absolute path computed by
-StaticFileHandler.get_absolute_path (recorded by a subclass wrapper) or None].
+was served).  Observable per request: [status, Location, body, absolute path computed by
+StaticFileHandler.get_absolute_path (recorded by a subclass wrapper) or None, Etag]; per static_url
+call: [url].  SHA-512 digests (Etag, ?v=) are replaced by the content they are the digest of.
 """
 import asyncio
+import hashlib
 import itertools
+import json
 import logging
 import os
 import re
@@ -22,7 +30,7 @@ from harness.framework import SCRATCH
 ID = "C26"
 COQ_DIRS = ["C26"]
 PROPERTY_FILE = "C26/Property.v"
-RUN_IMPORTS = "From TV Require Import C26.Model C26.Run."
+RUN_IMPORTS = "From TV Require Import C26.Model C26.Seq C26.Run."
 RUN_FN = "run_case"
 CHECK_FN = "check_case"
 INPUT_TYPE = "input"
@@ -77,6 +85,14 @@ CFGS = [
     (B, B + "/root", "/static/", ".."),
     (B, B + "/root", "/static/", "../../secret.txt"),
 ]
+# (cwd, [handlers]) : the single-handler configurations, then Applications with several handlers
+APPS = [(c[0], [(c[1], c[2], c[3])]) for c in CFGS] + [
+    (B, [(B + "/root", "/static/", IDX), (B + "/rootX", "/x/", IDX), (B + "/roo", "/roo/", None)]),      # 19 sibling roots
+    (B, [(B + "/root/sub", "/s/", IDX), (B + "/root", "/static/", IDX), (B, "/all/", IDX)]),             # 20 nested roots
+    (B, [(B + "/rootX", "/x/", None), (B + "/root", "/", IDX)]),                                         # 21 catch-all prefix
+    (B, [("rootX", "/static/x/", IDX), ("root", "/static/", IDX), ("other", "/static/", IDX)]),          # 22 relative roots, overlapping prefixes
+]
+MULTI = list(range(len(CFGS), len(APPS)))
 ROOT_SLASH_CFG = 13
 PLAIN = lambda d: d is None or (d != "" and "/" not in d and d not in (".", ".."))
 
@@ -85,15 +101,19 @@ TRUSTED_BASE = [
     "the filesystem is an oracle path -> Missing|Dir|File(content) queried atomically; for the correspondence it is a fixed symlink-free fixture tree (Run.v `fixture`, mirrored by TREE here); symlinks and races between the checks and open() are outside the model",
     "request.path is ASCII without '?', control characters or spaces (what the HTTP/1 request-line parser lets through unchanged); the route regex is a literal prefix followed by (.*)",
     "a subclass of StaticFileHandler that records the result of get_absolute_path (calls super(); no behaviour change) provides the absolute-path component of the observable",
+    "the SHA-512 content hash is an abstract function H in the theorems and the identity in run_case: the harness replaces each digest in Etag / ?v= by the fixture content it is the digest of (no empty files in the fixture); every case starts from StaticFileHandler.reset(); the filesystem does not change during a sequence (stale cache entries can only affect the Etag, see C26_cache_never_changes_what_is_served which holds for ANY cache state)",
 ]
 ASSUMPTIONS = [
     "os.getcwd() is an absolute path (theorem hypothesis cwd = '/' :: _)",
     "default_filename is None or a plain file name (non-empty, no '/', not '.' or '..') for the default-file confinement; C26_default_filename_must_be_plain shows the hypothesis is necessary",
 ]
-RULE = ("19 configurations (absolute/relative/unnormalised/double-slash roots, prefix '/', root '/', nested and prefix-named roots, odd default file names) x "
+RULE = ("19 single-handler configurations (absolute/relative/unnormalised/double-slash roots, prefix '/', root '/', nested and prefix-named roots, odd default file names) x "
         "paths built from fixture names, '..', '.', empty, absolute and sibling targets with per-character percent-encoding variants (valid, overlong, NUL, bad hex, "
         "double-encoded), plus a malformed character stream; small-scope exhaustive enumeration of segment sequences (length <= 3 quick, <= 4 thorough) on the main configuration; "
-        "distinct by (configuration, request path); non-trivial = the route matched")
+        "4 multi-handler Applications (sibling, nested, catch-all, relative/overlapping-prefix roots) x static_hash_cache on/off: every pair (operation that puts a target file into "
+        "the shared hash cache: GET/HEAD through the handler that owns it or static_url through any handler) x (request for the same target through every handler in 8 spellings), "
+        "exhaustive over 13 targets in thorough, plus random sequences of 2-6 operations; GET and HEAD; "
+        "distinct by (application, cache flag, operation list); non-trivial = some request reached get() or was refused for bad encoding")
 
 logging.getLogger("tornado.access").setLevel(logging.CRITICAL)
 logging.getLogger("tornado.general").setLevel(logging.CRITICAL)
@@ -124,6 +144,18 @@ def _mk(path, t):
 _state = {}
 
 
+def _files(t, pre=""):
+    for name, v in t.items():
+        if isinstance(v, dict):
+            yield from _files(v, pre + name + "/")
+        else:
+            yield pre + name, v
+
+
+FILES = dict(_files(TREE))                      # location relative to B -> content id
+DIGEST = {hashlib.sha512(v.encode("ascii")).hexdigest(): v for v in FILES.values()}
+
+
 def _setup():
     if _state:
         return _state
@@ -139,34 +171,36 @@ def _setup():
             return r
 
     loop = asyncio.new_event_loop()
-    _state.update(loop=loop, log=log, Rec=Rec, Application=Application, apps={})
+    _state.update(loop=loop, log=log, Rec=Rec, Application=Application, SFH=StaticFileHandler, apps={})
     return _state
 
 
-def _app(st, k):
-    if k not in st["apps"]:
-        cwd, root, prefix, dflt = CFGS[k]
-        st["apps"][k] = st["Application"]([(re.escape(prefix) + r"(.*)", st["Rec"], {"path": root, "default_filename": dflt})])
-    return st["apps"][k]
+def _app(st, a, hc):
+    if (a, hc) not in st["apps"]:
+        cwd, hs = APPS[a]
+        routes = [(re.escape(prefix) + r"(.*)", st["Rec"], {"path": root, "default_filename": dflt}) for root, prefix, dflt in hs]
+        st["apps"][(a, hc)] = st["Application"](routes, static_hash_cache=hc)
+    return st["apps"][(a, hc)]
 
 
 _ERRPAGE = re.compile(rb"^<html><title>(\d+): [^<]*</title><body>\1: [^<]*</body></html>$")
 
 
-def run_impl(case):
+def _canon_digest(h):
+    """SHA-512 hex digest -> the fixture content it is the digest of."""
+    return DIGEST[h] if h in DIGEST else G.Tag("UnknownDigest")
+
+
+def _request(st, app, method, raw):
     from harness.fake_iostream import FakeIOStream, EOF
     from tornado.httpserver import HTTPServer
-    st = _setup()
-    k, raw = case["cfg"], case["raw"]
-    cwd = CFGS[k][0]
-    app = _app(st, k)
     del st["log"][:]
 
     async def one():
         srv = HTTPServer(app)
         s = FakeIOStream()
         srv.handle_stream(s, ("1.2.3.4", 5))
-        s.feed(b"GET " + raw.encode("ascii") + b" HTTP/1.1\r\nHost: x\r\n\r\n")
+        s.feed(method + b" " + raw.encode("ascii") + b" HTTP/1.1\r\nHost: x\r\n\r\n")
         for _ in range(8):
             await asyncio.sleep(0)
         s.feed(EOF)
@@ -174,14 +208,7 @@ def run_impl(case):
             await asyncio.sleep(0)
         return bytes(s.sent)
 
-    old = os.getcwd()
-    os.chdir(cwd)
-    asyncio.set_event_loop(st["loop"])
-    try:
-        data = st["loop"].run_until_complete(one())
-    finally:
-        asyncio.set_event_loop(None)
-        os.chdir(old)
+    data = st["loop"].run_until_complete(one())
     head, sep, body = data.partition(b"\r\n\r\n")
     if not sep:
         return [G.Tag("NoResponse"), data[:60]]
@@ -191,49 +218,126 @@ def run_impl(case):
     for ln in lines[1:]:
         n, _, v = ln.partition(b":")
         hdr[n.strip().lower()] = v.strip()
-    if b"content-length" in hdr and int(hdr[b"content-length"]) != len(body):
+    if method == b"GET" and b"content-length" in hdr and int(hdr[b"content-length"]) != len(body):
         return [G.Tag("BadFraming"), status]
     if status != 200 and _ERRPAGE.match(body):
         body = b""
     loc = hdr.get(b"location")
+    etag = hdr.get(b"etag")
+    if etag is not None:
+        e = etag.decode("latin-1")
+        etag = _canon_digest(e[1:-1]) if len(e) > 2 and e[0] == e[-1] == '"' else G.Tag("BadEtag")
+        if not isinstance(etag, G.Tag):
+            etag = etag.encode("ascii")
     log = st["log"]
     if len(log) > 1:
         return [G.Tag("SeveralAbsolutePaths"), status]
-    return [status, loc, body, (log[0] if log else None)]
+    return [status, loc, body, (log[0] if log else None), etag]
+
+
+def _static_url(st, a, k, path):
+    root, prefix, dflt = APPS[a][1][k]
+    url = st["Rec"].make_static_url({"static_path": root, "static_url_prefix": prefix}, path)
+    m = re.search(r"\?v=([0-9a-f]{128})$", url)
+    if m:
+        d = _canon_digest(m.group(1))
+        if isinstance(d, G.Tag):
+            return [d]
+        url = url[:m.start()] + "?v=" + d
+    return [url]
+
+
+def run_impl(case):
+    st = _setup()
+    a, hc = case["app"], case["hc"]
+    cwd = APPS[a][0]
+    app = _app(st, a, hc)
+    old = os.getcwd()
+    os.chdir(cwd)
+    asyncio.set_event_loop(st["loop"])
+    st["SFH"].reset()                      # every case starts with an empty _static_hashes
+    assert "_static_hashes" not in st["Rec"].__dict__
+    out = []
+    try:
+        for op in case["ops"]:
+            if op[0] == "U":
+                out.append(_static_url(st, a, op[1], op[2]))
+            else:
+                out.append(_request(st, app, b"GET" if op[0] == "G" else b"HEAD", op[1]))
+    finally:
+        asyncio.set_event_loop(None)
+        os.chdir(old)
+    return out
 
 
 def coq_input(case):
-    cwd, root, prefix, dflt = CFGS[case["cfg"]]
-    return "(%s, %s, %s, %s, %s, %s)" % (
-        G.gbytes(B), G.gbytes(cwd), G.gbytes(root), G.gbytes(prefix),
-        G.goption(dflt, G.gbytes, "str"), G.gbytes(case["raw"]))
+    cwd, hs = APPS[case["app"]]
+    hl = G.glist(["(%s, %s, %s)" % (G.gbytes(r), G.gbytes(p), G.goption(d, G.gbytes, "str")) for r, p, d in hs])
+    ops = []
+    for op in case["ops"]:
+        if op[0] == "U":
+            ops.append("OStaticUrl %s %s" % (G.gnat(op[1]), G.gbytes(op[2])))
+        else:
+            ops.append("OReq %s %s" % ("GET" if op[0] == "G" else "HEAD", G.gbytes(op[1])))
+    assert cwd.startswith("/")
+    return "(%s, %s, %s, %s, %s)" % (G.gbytes(B), G.gbytes(cwd[1:]), G.gbool(case["hc"]), hl, G.glist(ops, "op"))
 
 
-def py_check(case, o):
-    """Independent oracle using the REAL filesystem: a 200 body names a file whose real location is
-    inside the real location of the root; only 200/301/400/403/404 occur."""
-    cwd, root, prefix, dflt = CFGS[case["cfg"]]
-    if not (isinstance(o, list) and len(o) == 4 and isinstance(o[0], int) and not isinstance(o[0], G.Tag)):
+def pick(a, raw):
+    for h in APPS[a][1]:
+        if raw.startswith(h[1]):
+            return h
+    return None
+
+
+def _py_check_req(cwd, h, method, o):
+    if not (isinstance(o, list) and len(o) == 5 and isinstance(o[0], int) and not isinstance(o[0], G.Tag)):
         return False
-    st, loc, body, ab = o
-    if st not in (200, 301, 400, 403, 404):
+    st, loc, body, ab, etag = o
+    if st not in (200, 301, 400, 403, 404) or isinstance(etag, G.Tag):
         return False
+    if h is None:
+        return st == 404 and ab is None
+    root, prefix, dflt = h
     if not PLAIN(dflt):
         return True
     rr = os.path.realpath(os.path.join(cwd, root))
     rr_slash = rr if rr.endswith("/") else rr + "/"
+
+    def inside(ident):
+        if not ident.startswith(b"F:"):
+            return False
+        where = os.path.realpath(os.path.join(B, ident[2:].decode("ascii")))
+        return (where + "/").startswith(rr_slash) and where != rr
     if st == 200:
-        if not body.startswith(b"F:"):
+        if method == "G" and not inside(body):
             return False
-        where = os.path.realpath(os.path.join(B, body[2:].decode("ascii")))
-        if not (where + "/").startswith(rr_slash) or where == rr:
+        if etag is None or not inside(etag) or (method == "G" and etag != body) or (method == "H" and body != b""):
             return False
+    elif etag is not None:
+        return False
     if st in (200, 301) and ab is not None:
         real = os.path.realpath(ab)
         if not (real + "/").startswith(rr_slash):
             return False
     if st == 301 and (loc is None or loc.startswith(b"//")):
         return False
+    return True
+
+
+def py_check(case, o):
+    """Independent oracle using the REAL filesystem: whatever was requested or hashed before, a 200
+    body / Etag names a file whose real location is inside the real location of the root of the
+    handler that answers; only 200/301/400/403/404 occur."""
+    cwd, hs = APPS[case["app"]]
+    if not (isinstance(o, list) and len(o) == len(case["ops"])):
+        return False
+    for op, out in zip(case["ops"], o):
+        if op[0] == "U":
+            if not (isinstance(out, list) and len(out) == 1 and isinstance(out[0], str) and not isinstance(out[0], G.Tag)):
+                return False
+        elif not _py_check_req(cwd, pick(case["app"], op[1]), op[0], out):
+            return False
     return True
 
 
@@ -334,8 +438,104 @@ def rand_raw_rootslash(rng):
     return "/" + enc_path(rng, head + "/" + "/".join(segs), rng.choice(["min", "mix"]))
 
 
-def mk(k, raw):
-    return {"cfg": k, "raw": raw}
+def mk(k, raw, meth="G"):
+    return {"app": k, "hc": True, "ops": [[meth, raw]]}
+
+
+def mkseq(a, hc, ops):
+    return {"app": a, "hc": hc, "ops": ops}
+
+
+def rel_from(root_loc, target_loc):
+    """path from directory root_loc to target_loc (both relative to B, '' = B)"""
+    r = [x for x in root_loc.split("/") if x]
+    t = [x for x in target_loc.split("/") if x]
+    i = 0
+    while i < len(r) and i < len(t) and r[i] == t[i]:
+        i += 1
+    return "/".join([".."] * (len(r) - i) + t[i:])
+
+
+def root_loc(a, k):
+    cwd, hs = APPS[a]
+    p = os.path.normpath(os.path.join(cwd, hs[k][0]))
+    return "" if p == B else os.path.relpath(p, B)
+
+
+TARGETS = ["root/a.txt", "root/index.html", "root/sub/b.txt", "root/sub/index.html", "rootX/secret.txt", "rootX/index.html",
+           "roo/x.txt", "secret.txt", "root.txt", "other/index.html", "other/sub/b.txt", "root/root/n.txt", "root/sub/deep/c.txt"]
+DIRS = ["root", "root/sub", "rootX", "roo", "other", "other/sub", "root/empty", ""]
+
+
+def warm_ops(a, t):
+    """operations that legitimately put target t into the hash cache"""
+    out = []
+    for k, (root, prefix, dflt) in enumerate(APPS[a][1]):
+        rl = root_loc(a, k)
+        rel = rel_from(rl, t)
+        out.append(["U", k, rel])                       # static_url hashes anything the app names
+        if not rel.startswith(".."):
+            out.append(["G", prefix + rel])
+            out.append(["H", prefix + rel])
+    return out
+
+
+def attack_ops(rng, a, t):
+    """requests for target t (file or directory) through every handler, in several spellings"""
+    out = []
+    for k, (root, prefix, dflt) in enumerate(APPS[a][1]):
+        rel = rel_from(root_loc(a, k), t)
+        forms = [rel, enc_path(rng, rel, "dots"), "./x/../" + rel, B + "/" + t, "/" + B + "/" + t, enc_path(rng, rel, "all"),
+                 "sub/../" + rel, rel.replace("/", "//")]
+        for f in forms:
+            out.append([rng.choice(["G", "G", "H"]), prefix + f])
+    return out
+
+
+def seq_cases(rng, tier):
+    out = []
+    apps = MULTI if tier != "quick" else MULTI[:3]
+    # exhaustive pairs: one warming operation, then one request for the same target through each handler
+    for a in apps:
+        for hc in (True, False):
+            for t in (TARGETS if tier != "quick" else TARGETS[:8:1]):
+                ws = warm_ops(a, t)
+                ats = attack_ops(rng, a, t)
+                if tier == "quick":
+                    ats = [x for i, x in enumerate(ats) if i % 8 in (0, 1, 3)]
+                    ws = ws[:4]
+                    if not hc and rng.random() < 0.6:
+                        continue
+                for w in ws:
+                    for at in ats:
+                        out.append(mkseq(a, hc, [w, at]))
+    # random longer sequences
+    for _ in range(150 if tier == "quick" else 2500):
+        a = rng.choice(MULTI)
+        hc = rng.random() < 0.8
+        ops = []
+        for _ in range(rng.randrange(2, 7)):
+            t = rng.choice(TARGETS + DIRS)
+            r = rng.random()
+            if r < 0.35:
+                ops.append(rng.choice(warm_ops(a, t)))
+            elif r < 0.85:
+                ops.append(rng.choice(attack_ops(rng, a, t)))
+            elif r < 0.93:
+                k = rng.randrange(len(APPS[a][1]))
+                ops.append(["U", k, rng.choice(["", "nope.txt", "../", "a.txt\x00", B + "/secret.txt", "sub", "é.txt", "..//rootX/secret.txt"])])
+            else:
+                k = rng.randrange(len(APPS[a][1]))
+                ops.append(["G", APPS[a][1][k][1] + rand_raw(rng, 0)[len("/static/"):]])
+        out.append(mkseq(a, hc, ops))
+    # single-handler configurations: static_url then request, hash cache off, HEAD
+    for _ in range(60 if tier == "quick" else 600):
+        k = rng.choice([0, 1, 2, 7, 8, 9, 10, 11])
+        raw = rand_raw(rng, k)
+        ops = [["U", 0, rng.choice(["../rootX/secret.txt", "a.txt", "sub/index.html", "../secret.txt", B + "/rootX/index.html"])],
+               [rng.choice(["G", "H"]), raw], ["G", raw]]
+        out.append(mkseq(k, rng.random() < 0.7, ops))
+    return out
 
 
 def corpus_cases():
@@ -390,12 +590,20 @@ def gen_cases(rng, tier):
         out.append(mk(k, rand_raw(rng, k)))
     for _ in range(40 if tier == "quick" else 400):
         out.append(mk(ROOT_SLASH_CFG, rand_raw_rootslash(rng)))
+    for c in out:
+        if rng.random() < 0.08:
+            c["ops"][0][0] = "H"
+    out += seq_cases(rng, tier)
     if tier == "search":
-        out = [mk(0, rand_raw(rng, 0)) for _ in range(1500)]
+        out = [mk(0, rand_raw(rng, 0)) for _ in range(700)] + seq_cases(rng, "quick")[:800]
     ok = []
     for c in out:
-        r = c["raw"]
-        if all(33 <= ord(ch) < 127 for ch in r) and "?" not in r and len(r) < 300:
+        good = True
+        for op in c["ops"]:
+            if op[0] != "U":
+                r = op[1]
+                good = good and all(33 <= ord(ch) < 127 for ch in r) and "?" not in r and len(r) < 300
+        if good:
             ok.append(c)
     return ok
 
@@ -404,54 +612,106 @@ HAS_SEARCH_TIER = True
 
 
 def neighbours(case, rng):
-    k = case["cfg"]
-    for _ in range(150):
-        yield mk(k, rand_raw(rng, k))
+    a = case["app"]
+    if a in MULTI:
+        for _ in range(100):
+            t = rng.choice(TARGETS)
+            yield mkseq(a, case["hc"], [rng.choice(warm_ops(a, t)), rng.choice(attack_ops(rng, a, t))])
+    else:
+        for _ in range(150):
+            yield mk(a, rand_raw(rng, a))
+
+
+def _reqs(case, o):
+    if isinstance(o, list) and len(o) == len(case["ops"]):
+        for op, out in zip(case["ops"], o):
+            if op[0] != "U" and isinstance(out, list) and len(out) == 5:
+                yield op, out
 
 
 def nontrivial(case, o):
-    if isinstance(o, list) and len(o) == 4 and (o[3] is not None or o[0] == 400):
-        return (case["cfg"], case["raw"])
+    for op, out in _reqs(case, o):
+        if out[3] is not None or out[0] == 400:
+            return (case["app"], case["hc"], json.dumps(case["ops"]))
     return None
 
 
 def classify(case, o):
-    raw = case["raw"]
-    yield "cfg=%d" % case["cfg"]
-    if isinstance(o, list) and len(o) == 4:
-        yield "status=%s" % o[0]
-        ab = o[3]
-        if ab is not None:
-            cwd, root, prefix, dflt = CFGS[case["cfg"]]
-            rr = os.path.realpath(os.path.join(cwd, root)).rstrip("/") + "/"
-            yield "abspath=" + ("inside-root" if (os.path.normpath(ab) + "/").replace("//", "/").startswith(rr) else "outside-root")
+    a = case["app"]
+    yield "app=%d" % a
+    yield "ops=%d" % len(case["ops"])
+    if not case["hc"]:
+        yield "static_hash_cache=False"
+    warmed = set()
+    cwd = APPS[a][0]
+    for i, op in enumerate(case["ops"]):
+        if op[0] == "U":
+            yield "op=static_url"
+            root = APPS[a][1][op[1]][0]
+            warmed.add(os.path.normpath(os.path.join(cwd, root, op[2])) if "\x00" not in op[2] else None)
+    for op, out in _reqs(case, o):
+        raw = op[1]
+        yield "op=" + ("GET" if op[0] == "G" else "HEAD")
+        yield "status=%s" % out[0]
+        ab = out[3]
+        h = pick(a, raw)
+        if ab is not None and h is not None:
+            rr = os.path.realpath(os.path.join(cwd, h[0])).rstrip("/") + "/"
+            ins = (os.path.normpath(ab) + "/").replace("//", "/").startswith(rr)
+            yield "abspath=" + ("inside-root" if ins else "outside-root")
+            if not ins and ab in warmed:
+                yield "outside-root-path-already-in-hash-cache"
             if "\x00" in ab:
                 yield "NUL-in-path"
-    if "%" in raw:
-        yield "percent-encoded"
-    if ".." in raw or "%2e%2e" in raw.lower():
-        yield "dotdot"
-    if "//" in raw[1:]:
-        yield "double-slash"
+            if out[0] == 200:
+                warmed.add(ab)
+                if h[2]:
+                    warmed.add(ab + "/" + h[2])
+        if "%" in raw:
+            yield "percent-encoded"
+        if ".." in raw or "%2e%2e" in raw.lower():
+            yield "dotdot"
+        if "//" in raw[1:]:
+            yield "double-slash"
 
 
 def signature(case, o):
-    st = o[0] if isinstance(o, list) and o else "?"
-    return "cfg-kind=%s status=%s" % ("plain" if PLAIN(CFGS[case["cfg"]][3]) else "odd-default", st)
+    sts = [str(out[0]) for _, out in _reqs(case, o)]
+    plain = all(PLAIN(h[2]) for h in APPS[case["app"]][1])
+    return "cfg-kind=%s statuses=%s" % ("plain" if plain else "odd-default", ",".join(sts[-2:]))
 
 
 def shrink(case):
-    k, raw = case["cfg"], case["raw"]
-    prefix = CFGS[k][2]
-    if raw.startswith(prefix):
+    a, hc, ops = case["app"], case["hc"], case["ops"]
+    if len(ops) > 1:
+        for i in range(len(ops)):
+            yield mkseq(a, hc, ops[:i] + ops[i + 1:])
+    if not hc:
+        yield mkseq(a, True, ops)
+    for j, op in enumerate(ops):
+        if op[0] == "U":
+            continue
+        raw = op[1]
+        h = pick(a, raw)
+        if h is None:
+            continue
+        prefix = h[1]
         tail = raw[len(prefix):]
         segs = tail.split("/")
-        for i in range(len(segs)):
-            yield mk(k, prefix + "/".join(segs[:i] + segs[i + 1:]))
-        for i in range(len(tail)):
-            yield mk(k, prefix + tail[:i] + tail[i + 1:])
-    if k != 0 and CFGS[k][2] == CFGS[0][2]:
-        yield mk(0, raw)
+        cands = ["/".join(segs[:i] + segs[i + 1:]) for i in range(len(segs))]
+        if len(tail) <= 40:
+            cands += [tail[:i] + tail[i + 1:] for i in range(len(tail))]
+        for t2 in cands:
+            if pick(a, prefix + t2) == h:
+                yield mkseq(a, hc, ops[:j] + [[op[0], prefix + t2]] + ops[j + 1:])
+        if op[0] == "H":
+            yield mkseq(a, hc, ops[:j] + [["G", raw]] + ops[j + 1:])
+    if len(ops) == 1 and a not in MULTI and a != 0 and CFGS[a][2] == CFGS[0][2]:
+        yield mkseq(0, hc, ops)
+
+
+def case_from_json(c):
+    return c
 
 
 LEVEL_TEXT = ("Machine-checked (Coq) proofs over an executable model of routing capture, percent/UTF-8 decoding, posixpath.join/normpath/abspath, "
@@ -459,8 +719,10 @@ LEVEL_TEXT = ("Machine-checked (Coq) proofs over an executable model of routing 
               "and every request path, a 200 or 301 response implies the absolute path (and the default file) is a normalised path whose segment list extends the "
               "root's segment list; paths outside the root yield 403 without consulting the filesystem, and the response is invariant under any change of the "
               "filesystem outside the root (non-interference); only 200/301/400/403/404 occur; the string prefix test with the re-added trailing slash is proved "
-              "equivalent to segment-wise containment (sibling directories sharing the root's name prefix are excluded). The model is compared with the real "
-              "HTTP stack end to end on a fixture tree.")
+              "equivalent to segment-wise containment (sibling directories sharing the root's name prefix are excluded). Lifted to sequences: for any list of handlers "
+              "(sibling/nested roots) sharing the class-wide hash cache, any sequence of GET/HEAD requests and static_url calls and ANY cache state, each request is "
+              "answered exactly as the cache-less single-request model answers it (the cache can influence only the Etag, and from a consistent cache not even that); "
+              "normpath is idempotent; check_case accepts the model on every input. The model is compared with the real HTTP stack end to end on a fixture tree.")
 LEVEL_NOTE = ("Trusted: Coq kernel/vm_compute; hand model of CPython posixpath/unquote/UTF-8 tied by correspondence; filesystem oracle (no symlinks, no races); "
               "ASCII request paths; the recording subclass; correspondence harness.")
 TECHNIQUE = "Coq proof (invariants of the normpath loop, prefix/segment equivalence, non-interference over an oracle) + differential correspondence via vm_compute on a fixture tree"
